@@ -78,7 +78,7 @@ def build_state(s, rnd, nprov=None, small=False):
         ks = rnd.sample(CLASSES, rnd.choice([0, 1, 2, 2, 3, 3]) if not sharing else rnd.randint(1, 2))
         invs = {}
         for k in ks:
-            total = rnd.choice([4, 4, 8, 8, 16])
+            total = rnd.choice([4, 4, 8, 8, 16, 5, 7, 9])
             kw = {}
             x = rnd.random()
             if x < 0.08:
@@ -89,8 +89,9 @@ def build_state(s, rnd, nprov=None, small=False):
                 kw['min_unit'] = 2
             elif x < 0.32:
                 kw['step_size'] = 2
-            elif x < 0.42:
-                kw['num'], kw['den'] = rnd.choice([(2, 1), (1, 2), (3, 2)])
+            elif x < 0.5:
+                # with an odd total: a capacity that is not a whole number (only its floor can be used)
+                kw['num'], kw['den'] = rnd.choice([(2, 1), (1, 2), (3, 2), (3, 2), (5, 4), (3, 4)])
             invs[k] = INV(total, **kw)
         if invs:
             s.invs(u, **invs)
